@@ -852,7 +852,8 @@ impl<const N: usize> Not for BigInt<N> {
 pub fn signed_mod_reduction(n: u64, modulus: u64) -> i64 {
     let t = (n % modulus) as i64;
     if t as u64 >= (modulus / 2) {
-        t - (modulus as i64)
+        // `modulus` may be 2^63 (window size 63), which does not fit in an `i64`
+        (t as i128 - modulus as i128) as i64
     } else {
         t
     }
